@@ -39,7 +39,7 @@ ASSUMPTIONS = [
     "the scheduler does not model locks: cm_colors takes none; a stall is a HARNESS-ERROR, never a verdict",
     "text results embedding the sandbox path are normalised to <SBX>",
 ]
-PROBES = ["H_runs", "H_ops", "H_probes_after_change", "H_cli_ops", "H_bulk_ops", "H_show_save_ops", "H_slot_reuse", "H_repeat_same_op", "H_alias_family_ops", "H_bulk_position_probes", "H_flood_ops", "H_heavy_distinct_fix_ops",
+PROBES = ["H_runs", "H_ops", "H_probes_after_change", "H_cli_ops", "H_bulk_ops", "H_show_save_ops", "H_slot_reuse", "H_repeat_same_op", "H_alias_family_ops", "H_bulk_position_probes", "H_flood_ops", "H_heavy_distinct_fix_ops", "H_host_warning_filter_windows", "H_ops_under_warnings_as_errors", "H_clock_jump_windows", "T_runs_under_jumping_clock",
           "T_runs", "T_threads", "T_ops", "T_steps", "T_switches", "T_hot_line_hits", "T_switch_in_optimisation", "T_mode_different",
           "T_mode_same", "T_mode_shared_object", "T_runs_with_switch_inside_call", "T_shared_object_first_touch_in_threads", "P_runs", "P_ops", "P_interpreters"]
 
@@ -52,6 +52,8 @@ def _pair(rng, vr=False, cheap=False):
     bg = gen.rand_rgb(rng)
     large = rng.random() < 0.25
     thr = refs.target_ratio(premium=vr, large=large)
+    if rng.random() < 0.06:
+        large = rng.choice((1, 1, None) if large else (0, None, None))  # a truthy / falsy flag that is not a bool
     band = rng.choice(("pass", "pass-hair", "fix", "fix", "fix-hair", "mid", "hard", "same", "random")) if not cheap else \
         rng.choice(("pass", "fix-hair", "fix", "fix", "pass-hair", "mid"))
     trgb, _ = gen.pick_text(rng, bg, thr, band)
@@ -64,6 +66,8 @@ def _pair(rng, vr=False, cheap=False):
         b = gen.spell_alpha(rng, bg, rng.choice((0.1, 0.5, 0.9)))[0]  # translucent background (composited over white)
     if rng.random() < 0.06:
         t = rng.choice(gen.POISON_STR + gen.POISON_OBJ)
+    elif rng.random() < 0.05:
+        t = rng.choice(gen.NEAR_CSS)
     return enc(t), enc(b), large
 
 
@@ -112,6 +116,8 @@ def _cli_op(rng):
             txt = ":root{--undefined0:%s;--undefined1:%s;--x-shared:%s}\n" % tuple(gen.spell(rng, gen.rand_rgb(rng))[0] for _ in range(3)) + txt
         elif m < 0.6:
             txt += "\n.xref%d{color:%s}" % (rng.randrange(50), rng.choice(("var(--x-shared)", "var(--x-shared, #777)", "var(--undefined0, #767676)", "var(--undefined1)")))
+        if rng.random() < 0.2:
+            txt = "\ufeff" + txt  # saved by an editor that writes a byte-order mark
         tree[name] = txt
     return {"op": "cli", "tree": tree, "settings": settings, "order_key": rng.randrange(1 << 20)}
 
@@ -213,6 +219,40 @@ def generate(rseed, tier, idx):
                 else:
                     op = {"op": "bulk", "pairs": [[tt, bb]], "mode": mode, "vr": vr, "alias": True}
                 ops.insert(g.randrange(len(ops) + 1), op)
+        if g.random() < 0.3:
+            # one modern / unusual CSS spelling (accepted or rejected - either way always the same answer) at several points
+            # of the history, next to an ordinary colour of the same family
+            txt = g.choice(gen.NEAR_CSS)
+            for _ in range(g.randint(2, 3)):
+                _t, b0, large0 = _pair(g)
+                role = g.choice(("t", "t", "b"))
+                kind = g.choice(("make", "pair", "color", "bulk"))
+                tt, bb = (enc(txt), b0) if role == "t" else (_t, enc(txt))
+                if kind == "make":
+                    op = {"op": "make", "t": tt, "b": bb, "large": large0, "mode": g.choice((0, 1, None)), "vr": False, "alias": True}
+                elif kind == "pair":
+                    op = {"op": "pair", "t": tt, "b": bb, "large": large0, "alias": True}
+                elif kind == "color":
+                    op = {"op": "color", "v": enc(txt), "alias": True}
+                else:
+                    op = {"op": "bulk", "pairs": [[_t, b0], [tt, bb]], "mode": g.choice((0, 1, None)), "vr": False, "alias": True}
+                ops.insert(g.randrange(len(ops) + 1), op)
+            if g.random() < 0.5:
+                hs = gen.hsl_spelling(gen.rand_rgb(g))
+                ops.insert(g.randrange(len(ops) + 1), {"op": "color", "v": enc(hs), "alias": True})
+        if g.random() < 0.25:
+            # the HOST changes process-wide interpreter settings between calls (a test runner or an application that turns
+            # warnings into errors, python -W error): a window of pure operations runs under that setting
+            pos = g.randrange(len(ops) + 1)
+            window = [{"op": "env", "what": g.choice(("warnings-error", "warnings-error", "warnings-always", "clock-jumps", "clock-jumps")),
+                       "seed": g.randrange(1 << 30)}]
+            for _ in range(g.randint(2, 5)):
+                op = _pure_op(g)
+                if op["op"] == "make" and g.random() < 0.6:
+                    op["large"] = True
+                window.append(op)
+            window.append({"op": "env", "what": "warnings-reset"})
+            ops[pos:pos] = window
         return {"prop": ID, "engine": "H", "ops": ops}
     if k < 7:
         nthreads = g.choice((2, 2, 3, 3, 4))
@@ -242,7 +282,8 @@ def generate(rseed, tier, idx):
                         cl.append({"op": "readable_on", "slot": 0})
                 clients.append(cl)
         tr = {"prop": ID, "engine": "T", "sharing": sharing, "clients": clients, "sched_seed": s.randrange(1 << 62),
-              "mean_gap": s.choice((50, 500, 5000, 50000)), "p_hot": s.choice((0.0, 0.2, 0.6)), "schedule": None}
+              "mean_gap": s.choice((50, 500, 5000, 50000)), "p_hot": s.choice((0.0, 0.2, 0.6)), "schedule": None,
+              "sim_clock": s.random() < 0.3}
         if sharing == "shared-object":
             tr["shared"] = {"t": t, "b": b, "large": large}
             tr["shared_untouched"] = g.random() < 0.6
@@ -333,6 +374,9 @@ def _exec_H(trace):
     expect = []
     for op in trace["ops"]:
         sop = {k: v for k, v in op.items() if k not in ("again", "alias", "flood", "heavy")}
+        if sop["op"] == "env":
+            expect.append((sop, None))
+            continue
         if sop["op"] == "newpair":
             model.slot_spec[sop["slot"]] = {"t": sop["t"], "b": sop["b"], "large": sop.get("large", False)}
         eq = sop if sop["op"] == "cli" else apiops.fresh_equivalent(sop, model)
@@ -350,10 +394,42 @@ def _exec_H(trace):
     try:
         ctx = apiops.Ctx()
         bump("H_runs")
+        warn_cm = None
+        strict_warnings = False
+        sim_clock = False
         for i, op in enumerate(trace["ops"]):
+            if op["op"] == "env":
+                import warnings
+
+                if warn_cm is not None:
+                    warn_cm.__exit__(None, None, None)
+                    warn_cm, strict_warnings = None, False
+                if sim_clock:
+                    bump("H_clock_reads_by_cm_colors", seams.uninstall_sim_clock())
+                    sim_clock = False
+                if op["what"] in ("warnings-error", "warnings-always"):
+                    warn_cm = warnings.catch_warnings()
+                    warn_cm.__enter__()
+                    warnings.simplefilter("error" if op["what"] == "warnings-error" else "always")
+                    strict_warnings = op["what"] == "warnings-error"
+                    bump("H_host_warning_filter_windows")
+                elif op["what"] == "clock-jumps":
+                    # fault: every clock cm_colors reads jumps forward between reads (suspend/resume, NTP step, a loaded machine)
+                    seams.install_sim_clock(op.get("seed", 0))
+                    sim_clock = True
+                    bump("H_clock_jump_windows")
+                events.append((i, op, None, None))
+                continue
             r = _run_any(op, ctx, root)
             eq, orc = expect[i]
             bump("H_ops")
+            if strict_warnings:
+                bump("H_ops_under_warnings_as_errors")
+                if "exc" in r and "Warning(" in str(r["exc"])[:60] and "exc" not in orc:
+                    # the host asked for warnings to be raised and one was: that is the host's request, not a wrong result
+                    bump("H_warning_raised_as_asked")
+                    events.append((i, {k: v for k, v in op.items() if k != "tree"}, None, r.get("exc")))
+                    continue
             if op["op"] == "cli":
                 bump("H_cli_ops")
             if op["op"] == "bulk":
@@ -398,6 +474,10 @@ def _exec_H(trace):
             if _colour_changed(op, r):
                 changed_seen = True
     finally:
+        if warn_cm is not None:
+            warn_cm.__exit__(None, None, None)
+        if sim_clock:
+            bump("H_clock_reads_by_cm_colors", seams.uninstall_sim_clock())
         base.rm_tree(root)
     return {"violations": vio, "digest": base.digest(events), "nontrivial": nontrivial, "stats": stats, "steps": stats.get("H_ops", 0),
             "measures": {"distinct_histories(op lists)": base.digest([{k: v for k, v in o.items() if k not in ("again", "alias", "flood", "heavy")} for o in trace["ops"]])}}
@@ -459,10 +539,16 @@ def _exec_T(trace):
 
         sc = sched.Scheduler(n, rng=random.Random("%d|sched" % trace["sched_seed"]), mean_gap=trace["mean_gap"],
                              p_hot=trace["p_hot"], hot=sched.hot_lines() if trace["p_hot"] > 0 else None)
+    if trace.get("sim_clock"):
+        seams.install_sim_clock(trace["sched_seed"])
+        bump("T_runs_under_jumping_clock")
     try:
         sc.run([mk(i) for i in range(n)])
     except sched.StepCap:
         raise base.HarnessError("step cap exceeded")
+    finally:
+        if trace.get("sim_clock"):
+            stats["clock_reads_by_cm_colors"] = stats.get("clock_reads_by_cm_colors", 0) + seams.uninstall_sim_clock()
     if sc.errors:
         # an exception escaping run_op can only be the harness's own (run_op catches Exception)
         raise base.HarnessError("client thread error: %r" % (sc.errors,))
